@@ -104,6 +104,7 @@ type Exec struct {
 	Labels    []string // labels actually taken
 	SpinK     int
 	free      bool // teardown: hooks no longer park
+	root      int64 // goroutine id of the controller: it never parks
 	Notes     []string
 }
 
@@ -162,6 +163,7 @@ func NewExec(t *trace.Writer, seed int64) *Exec {
 		counts: map[string]int{},
 		start:  time.Now(),
 		SpinK:  50,
+		root:   gid(),
 	}
 	x.Strategy = int(x.Rng.Intn(3))
 	curMu.Lock()
@@ -217,6 +219,19 @@ func (x *Exec) hook(kind, site string, obj any) {
 		hint = site
 	}
 	a := x.actorLocked(g, hint)
+	if g == x.root {
+		// calls made by the controller itself (probes, setup) run straight through
+		switch kind {
+		case "lock":
+			a.depth++
+		case "unlocked":
+			if a.depth > 0 {
+				a.depth--
+			}
+		}
+		x.mu.Unlock()
+		return
+	}
 	switch kind {
 	case "unlocked":
 		if a.depth > 0 {
